@@ -28,10 +28,12 @@ PSpec == PInit /\ [][PNext]_vars
 Done == ev.op = "unpickle"
 Equal    == Done => LET o == View(st, "o")  u == View(st, "c")
                     IN  o.name = u.name /\ o.decl = u.decl /\ o.tab = u.tab /\ o.body = u.body /\ o.spec = u.spec /\ o.members = u.members
+                        /\ o.ntab = u.ntab
 SameText == Done => Text(View(st, "c")) = Text(View(st, "o"))
 ScopesReattached ==
   Done => LET u == View(st, "c") IN
           /\ u.owners \subseteq {"self"} /\ u.memparent \subseteq {"self"} /\ u.memtab \subseteq {"own"} /\ u.calls \subseteq {"own"}
+          /\ u.nparent \subseteq {"self"} /\ u.nown \subseteq {"self"} /\ u.nocc = View(st, "o").nocc
           /\ \A v \in Vars : u.occ[v] = View(st, "o").occ[v]                 \* ... with the same types
           /\ \A v \in {"v1", "v2"} : u.mocc[v] = View(st, "o").mocc[v]
 OriginalUntouched == [][ev'.op = "unpickle" => View(st', "o") = View(st, "o")]_vars
